@@ -24,6 +24,10 @@ def handbuilt(tier, seed):
     else:
         specs = sfsgen.generate(2, 2, 2) + corpus.sample(sfsgen.generate(1, 3, 1, timeout=3000), 60000, seed) \
                 + sfsgen.generate(2, 4, 2, simulate=(20000, 6), seed=seed) + sfsgen.generate(3, 5, 3, simulate=(10000, 7), seed=seed + 1)
+    # one or two arithmetic operations over 3 to 6 initial stack elements: operands at every depth, used once or kept
+    pure = [i for i, o in enumerate(sfsgen.OPS) if o[3] == "pure"]
+    mid = sfsgen.generate(6, 1, 2, ops=pure, minsrc=3) + sfsgen.generate(6, 2, 2, ops=pure, minsrc=3, simulate=(150 if tier == "quick" else 1500, 4), seed=seed + 5)
+    specs += corpus.sample(mid, 6000 if tier == "quick" else 40000, seed)
     # deep initial stacks (the stack-cleaning part of greedy only acts on ten or more elements)
     deep = sfsgen.generate(18, 6, 2, simulate=(100, 8) if tier == "quick" else (700, 9), seed=seed + 2, minsrc=12)
     specs += corpus.sample(deep, 6000 if tier == "quick" else 30000, seed)
